@@ -84,6 +84,7 @@ Definition sys_ctx (sys : list tdef) : ctx Z data state Z (list (Z * data)) :=
     (fun f c => od_getitem Z.eqb f c)
     (fun l => l)
     (fun l => l)
+    (fun _ _ => Raise KeyError)
     (fun t => t)
     (fun _ _ => 0).
 
